@@ -67,6 +67,8 @@ type c09Inst struct {
 	host      *c09Host
 	// hosted instances: the tables loaded at the deploy, and whose cleanup has run
 	loadedSet, cleaned map[string]bool
+	loadedSpan         map[string][2]int // key groups of first and last key
+	nbrRanges          [][2]int
 }
 
 // c09Host: which instance (and assembly generation) the operator object serves now; the neighbour stubs its
@@ -118,6 +120,8 @@ type c09World struct {
 	cleanups []string
 	// loaded-table cleanups whose decision the ownership wrapper has already recorded (the hook point follows it)
 	wrapped map[string]int
+	// table → instance on whose behalf a neighbour was last asked about it (consumed by the cleanup hook)
+	asking map[string]int
 	closed  bool
 	retained []c09Handle
 	nextID   uint64
@@ -264,6 +268,11 @@ func (n *c09Neighbor) NeedsTable(ctx context.Context, uri string) (bool, error) 
 		n.w.mu.Unlock()
 		return false, errors.New("case finished")
 	}
+	// whose cleanup is asking (an operator-served instance has no ownership wrapper that could tell)
+	if n.w.asking == nil {
+		n.w.asking = map[string]int{}
+	}
+	n.w.asking[uri] = n.asker
 	var target *c09Inst
 	for _, x := range n.w.insts {
 		if x.alive && x.db != nil && x.gen == n.gen && x.lo == n.r.Start && x.hi == n.r.End {
@@ -403,17 +412,56 @@ func (w *c09World) hook(label string, payload []any) {
 			w.mu.Lock()
 			if w.wrapped[uri] > 0 {
 				w.wrapped[uri]--
+				delete(w.asking, uri)
 			} else if !w.closed {
-				for _, x := range w.insts {
-					if x.host != nil && x.loadedSet[uri] && !x.cleaned[uri] {
-						x.cleaned[uri] = true
-						d := "keep"
-						if can {
-							d = "del"
+				// candidates: first an instance its operator has dropped (all its objects are garbage), then a running one
+				// whose level list no longer holds the table
+				var pick *c09Inst
+				if a, ok := w.asking[uri]; ok {
+					// this cleanup asked a neighbour: the stub knows on whose behalf
+					delete(w.asking, uri)
+					if a >= 0 && a < len(w.insts) && w.insts[a].host != nil && w.insts[a].loadedSet[uri] && !w.insts[a].cleaned[uri] {
+						pick = w.insts[a]
+					}
+				}
+				for pass := 0; pass < 3 && pick == nil; pass++ {
+					for _, x := range w.insts {
+						if x.host == nil || !x.loadedSet[uri] || x.cleaned[uri] {
+							continue
 						}
-						w.cleanups = append(w.cleanups, fmt.Sprintf("%d:%s:l:%s", x.idx, w.canon(uri), d))
+						// nobody was asked: the table's key groups lie inside the instance's own range, or no neighbour's
+						// range overlaps them
+						if sp, ok := x.loadedSpan[uri]; ok && pass < 2 {
+							inside := x.lo <= sp[0] && sp[1] < x.hi
+							overl := false
+							for _, nr := range x.nbrRanges {
+								overl = overl || (nr[0] <= sp[1] && sp[0] < nr[1])
+							}
+							if !inside && overl {
+								continue
+							}
+						}
+						switch pass {
+						case 0:
+							if x.alive || x.db != nil {
+								continue
+							}
+						case 1:
+							if !x.alive || x.db == nil || x.db.VerifLevels().IncludesTable(uri) {
+								continue
+							}
+						}
+						pick = x
 						break
 					}
+				}
+				if pick != nil {
+					pick.cleaned[uri] = true
+					d := "keep"
+					if can {
+						d = "del"
+					}
+					w.cleanups = append(w.cleanups, fmt.Sprintf("%d:%s:l:%s", pick.idx, w.canon(uri), d))
 				}
 			}
 			w.mu.Unlock()
@@ -834,10 +882,23 @@ func runC09(c lib.Case) []string {
 							OperatorId: fmt.Sprintf("i%d", wi), DkvFileUri: w.prefix + fmt.Sprintf("i%d/checkpoints", w.dirOf(wi))})
 						x.srcDocs = append(x.srcDocs, fmt.Sprintf("i%d/checkpoints", w.dirOf(wi)))
 					}
-					x.loadedSet, x.cleaned = map[string]bool{}, map[string]bool{}
+					x.loadedSet, x.cleaned, x.loadedSpan = map[string]bool{}, map[string]bool{}, map[string][2]int{}
 					for _, t := range preTabs {
 						x.known[t] = true
 						x.loadedSet[t] = true
+					}
+					for _, wi := range fromWs {
+						ts, _, _, _ := w.docEntry(wi, fromID)
+						for _, t := range ts {
+							if p := strings.Split(t, ":"); len(p) == 3 {
+								a, _ := strconv.Atoi(p[1])
+								b, _ := strconv.Atoi(p[2])
+								x.loadedSpan[w.prefix+p[0]] = [2]int{a, b}
+							}
+						}
+					}
+					for _, r := range ranges {
+						x.nbrRanges = append(x.nbrRanges, [2]int{r.Start, r.End})
 					}
 					w.mu.Lock()
 					x.op, x.deployReq = op, req
@@ -1401,7 +1462,8 @@ func runC09(c lib.Case) []string {
 			}
 			idx := len(w.insts)
 			nx := &c09Inst{idx: idx, gen: newGen, lo: x.lo, hi: x.hi, alive: true, mode: "truthful", known: map[string]bool{}, dir: x.dir,
-				op: x.op, host: x.host, loadedSet: map[string]bool{}, cleaned: map[string]bool{}}
+				op: x.op, host: x.host, loadedSet: map[string]bool{}, cleaned: map[string]bool{}, loadedSpan: map[string][2]int{},
+				nbrRanges: x.nbrRanges}
 			req := &workerpb.DeployOperatorRequest{Operators: x.deployReq.Operators, SourceRunnerIds: x.deployReq.SourceRunnerIds,
 				KeyGroupCount: x.deployReq.KeyGroupCount, StorageLocation: x.deployReq.StorageLocation}
 			var tabs, wals []string
@@ -1415,6 +1477,11 @@ func runC09(c lib.Case) []string {
 				for _, t := range ts {
 					nx.known[w.prefix+t[:strings.Index(t, ":")]] = true
 					nx.loadedSet[w.prefix+t[:strings.Index(t, ":")]] = true
+					if p := strings.Split(t, ":"); len(p) == 3 {
+						a, _ := strconv.Atoi(p[1])
+						b, _ := strconv.Atoi(p[2])
+						nx.loadedSpan[w.prefix+p[0]] = [2]int{a, b}
+					}
 				}
 			}
 			nx.deployReq = req
@@ -2289,7 +2356,7 @@ func propC09() *lib.Prop {
 	return &lib.Prop{
 		ID:       "C09",
 		Corr:     "Model/Files.lean transition system ↔ real dkv.DB instances (table cleanups under forced GC, CheckpointList retention, OperatorPartition.ExclusivelyOwnsTable with scripted/real neighbours)",
-		Rule:     "trace validation: generated lives of 1–4 dkv instances over up to 4 assembly generations (writes with real flush/compaction change sets, checkpoints, job retention, snapshots, crashes, in-process releases, rescale-out sharing tables and scale-in merging several documents, neighbours that answer truthfully / fail / time out, NeedsTable calls held between their two reads while checkpoints, compactions and retention updates commit); at every gc point the set of cleanups that ran, their decisions and the files that disappeared are compared with the model, and the needed-set (job-retained document entries + live level lists) is evaluated on the real file store; non-trivial = some table cleanup ran in the trace",
+		Rule:     "trace validation: generated lives of 1–4 dkv instances over up to 4 assembly generations (writes with real flush/compaction change sets, checkpoints, job retention, snapshots, crashes, in-process releases, successful and failing second deploys of real operator.Operators through HandleDeploy, rollbacks to an older retained checkpoint, rescale-out sharing tables and scale-in merging several documents, neighbours that answer truthfully / fail / time out, NeedsTable calls held between their two reads while checkpoints, compactions and retention updates commit); at every gc point the set of cleanups that ran, their decisions and the files that disappeared are compared with the model, and the needed-set (job-retained document entries + live level lists) is evaluated on the real file store; non-trivial = some table cleanup ran in the trace",
 		FeedImpl: true,
 		NumCases: func(tier string) int {
 			if tier == "thorough" {
